@@ -99,6 +99,7 @@ type planRun struct {
 	have  map[uint64]bool
 	log   []string
 	race  bool
+	cfg   nodeConfig
 
 	lastUsed map[*wire.Peer]time.Time // keep-alive bookkeeping only (the node drops a connection it has not heard from for 30 s)
 
@@ -121,10 +122,11 @@ func (p *planRun) viol(kind string, attrs map[string]string, extra map[string]in
 		attrs = map[string]string{}
 	}
 	attrs["plan"] = p.id
+	attrs["config"] = p.cfg.Name
 	if p.race {
 		attrs["build"] = "race"
 	}
-	w := map[string]interface{}{"plan": p.id, "chain_tag": p.rc.Tag, "blocks": len(p.rc.Blocks) - 1, "held_by_peer": keys(p.have), "log": p.log}
+	w := map[string]interface{}{"plan": p.id, "node_config": p.cfg, "chain_tag": p.rc.Tag, "blocks": len(p.rc.Blocks) - 1, "held_by_peer": keys(p.have), "log": p.log}
 	for k, v := range extra {
 		w[k] = v
 	}
@@ -268,6 +270,7 @@ func (p *planRun) observe(after string) (uint64, bool) {
 		hh := ledger.HeaderHash(sb.Head)
 		sigOK := ledger.VerifyBlockSig(p.rc.Chain.Publisher.Pub, sb.Sig, hh)
 		p.r.Count("stored-blocks.signature-checked", 1)
+		p.r.Count("cfg."+p.cfg.Name+".stored-blocks.signature-checked", 1)
 		if !sigOK {
 			p.viol("holds-block-not-signed-by-publisher", map[string]string{"after": after, "seq": fmt.Sprint(seq)}, map[string]interface{}{"block": hex.EncodeToString(encoder.Serialize(sb))})
 			return head, false
@@ -353,6 +356,7 @@ func (p *planRun) deliver(phase string, senders []int, msgs [][]item) bool {
 				p.r.Count("blocks.sent.already-held", 1)
 			case !it.Genuine && it.Seq == h+1:
 				p.r.Count("forged.offered-as-next-block."+it.Class, 1)
+				p.r.Count("cfg."+p.cfg.Name+".forged.offered-as-next-block."+it.Class, 1)
 				p.forgedAtHead[it.Class] = true
 				stopped = true
 			case !it.Genuine:
@@ -426,10 +430,11 @@ func (p *planRun) deliver(phase string, senders []int, msgs [][]item) bool {
 		p.r.Count("steps.rule-readings-differ", 1)
 	}
 	p.head = head
-	p.r.Distinct(fmt.Sprintf("%d>%d:%s", before, head, shape(msgs)))
+	p.r.Distinct(fmt.Sprintf("%s:%d>%d:%s", p.cfg.Name, before, head, shape(msgs)))
 	if head > before {
 		p.r.Count("steps.head-advanced", 1)
 		p.r.Count("blocks.accepted", int64(head-before))
+		p.r.Count("cfg."+p.cfg.Name+".blocks.accepted", int64(head-before))
 		for s := range p.gapDropped {
 			if s <= head {
 				p.gapFilled = true
@@ -446,6 +451,7 @@ func (p *planRun) deliver(phase string, senders []int, msgs [][]item) bool {
 				return false
 			}
 			p.r.Count("requests.getb-equals-new-head", 1)
+			p.r.Count("cfg."+p.cfg.Name+".requests.getb-equals-new-head", 1)
 		}
 	} else {
 		p.r.Count("steps.head-unchanged", 1)
@@ -474,7 +480,8 @@ func (p *planRun) genuine(seq uint64) item {
 }
 
 func (p *planRun) forgedItem(seq uint64) item {
-	class := forgedClasses[p.rng.Intn(len(forgedClasses))]
+	classes := p.cfg.classes()
+	class := classes[p.rng.Intn(len(classes))]
 	return item{Seq: seq, Class: class, Block: p.rc.forge(p.rng, int(seq), class)}
 }
 
@@ -582,7 +589,8 @@ func runPlan(r *vf.Run, bin, dir string, idx int, race bool) (stderr []byte, set
 		label = "race-plan"
 	}
 	rng := r.Rand(label, idx)
-	p := &planRun{r: r, id: fmt.Sprintf("seed%d-%s%d", r.Seed, label, idx), rng: rng, race: race,
+	cfg := configOf(idx)
+	p := &planRun{r: r, id: fmt.Sprintf("seed%d-%s%d", r.Seed, label, idx), rng: rng, race: race, cfg: cfg,
 		have: map[uint64]bool{}, lastUsed: map[*wire.Peer]time.Time{}, gapDropped: map[uint64]bool{}, forgedAtHead: map[string]bool{}}
 	n := 4 + rng.Intn(9) // 4..12
 	tag := fmt.Sprintf("c33-%d-%s-%d", r.Seed, label, idx)
@@ -598,10 +606,10 @@ func runPlan(r *vf.Run, bin, dir string, idx int, race bool) (stderr []byte, set
 			p.have[s] = true
 		}
 	}
-	forgeRate := []int{0, 25, 25, 50}[idx%4]
+	forgeRate := forgingRate(idx)
 
 	opts := node.Options{DataDir: filepath.Join(dir, "follower"), ChainTag: tag, Volume: volume,
-		GenesisSig: hex.EncodeToString(rc.Chain.GenesisSig[:]), Publisher: false, DisableCSRF: true}
+		GenesisSig: hex.EncodeToString(rc.Chain.GenesisSig[:]), Publisher: cfg.Publisher, Arbitrating: cfg.Arbitrating, DisableCSRF: true}
 	proc, err := node.Spawn(bin, filepath.Join(dir, "child"), opts)
 	if err != nil {
 		return nil, "follower did not start: " + err.Error()
@@ -675,9 +683,10 @@ func runPlan(r *vf.Run, bin, dir string, idx int, race bool) (stderr []byte, set
 	// expected: once at the very start and once later, classes cycling over the plans
 	forgeAt := map[int]string{}
 	if forgeRate > 0 {
-		fidx := idx - idx/4 - 1 // index among the forging plans
-		forgeAt[0] = forgedClasses[fidx%len(forgedClasses)]
-		forgeAt[1+rng.Intn(steps-1)] = forgedClasses[(fidx+4)%len(forgedClasses)]
+		fidx := forgingOrdinal(idx) // index among the forging plans of this configuration
+		classes := cfg.classes()
+		forgeAt[0] = classes[fidx%len(classes)]
+		forgeAt[1+rng.Intn(steps-1)] = classes[(fidx+4)%len(classes)]
 	}
 	for s := 0; s < steps && !p.failed; s++ {
 		if class, ok := forgeAt[s]; ok && p.head < p.n {
@@ -727,6 +736,13 @@ func runPlan(r *vf.Run, bin, dir string, idx int, race bool) (stderr []byte, set
 		return
 	}
 	r.Count("plans.completed", 1)
+	r.Count("cfg."+cfg.Name+".plans.completed", 1)
+	if p.forgedSent {
+		r.Count("cfg."+cfg.Name+".plans.with-forged-blocks", 1)
+	}
+	if want < p.n {
+		r.Count("cfg."+cfg.Name+".plans.final-prefix-shorter-than-chain", 1)
+	}
 	r.Count(fmt.Sprintf("plans.peers-%d", np), 1)
 	if want < p.n {
 		r.Count("plans.final-prefix-shorter-than-chain", 1)
@@ -763,5 +779,5 @@ func samplePlan(r *vf.Run, p *planRun) {
 	if len(l) > 12 {
 		l = l[:12]
 	}
-	r.Sample(map[string]interface{}{"plan": p.id, "chain_length": p.n, "held_by_peers": keys(p.have), "peers": len(p.peers), "final_head": p.head, "first_steps": l})
+	r.Sample(map[string]interface{}{"plan": p.id, "node_config": p.cfg.Name, "chain_length": p.n, "held_by_peers": keys(p.have), "peers": len(p.peers), "final_head": p.head, "first_steps": l})
 }
